@@ -1454,6 +1454,57 @@ pub fn c19(ctx: &mut Ctx, tier: &str, _seed: u64) {
             }
         }};
     }
+    // cloning INTO an existing value (clone_into / clone_from, also through Cow) overwrites it with exactly the
+    // source's bytes, whatever the target held before: in particular an equal path spelled differently
+    {
+        let mut rng = Rng::new(0xc19);
+        let mut pool: Vec<Vec<u8>> = dom.iter().filter(|s| s.len() >= 2).step_by(7).cloned().collect();
+        for x in [&b"a//b/./c/"[..], b"a/b/c", br"C:/users\.\me", br"c:\users\me", b"/", b"//", b"", b"a/", "é/./é".as_bytes(), "é/é".as_bytes()] {
+            pool.push(x.to_vec());
+        }
+        macro_rules! into_checks {
+            ($P:ty, $B:ty, $src:expr, $tgt:expr, $bytes:expr) => {{
+                let (src, tgt): (&$P, &$P) = ($src, $tgt);
+                let want: Vec<u8> = $bytes;
+                let mut b1: $B = tgt.to_path_buf();
+                src.clone_into(&mut b1);
+                let mut b2: $B = tgt.to_path_buf();
+                b2.clone_from(&src.to_path_buf());
+                let mut c1: Cow<$P> = Cow::Owned(tgt.to_path_buf());
+                c1.clone_from(&Cow::Owned(src.to_path_buf()));
+                let mut c2: Cow<$P> = Cow::Owned(tgt.to_path_buf());
+                c2.clone_from(&Cow::Borrowed(src));
+                let mut bx: Box<$P> = Box::from(tgt);
+                bx.clone_from(&Box::from(src));
+                b1.tob() == want && b2.tob() == want && c1.tob() == want && c2.tob() == want && bx.tob() == want
+            }};
+        }
+        for a in &pool {
+            let mut targets = gen::respell(a, false, &mut rng);
+            targets.extend(gen::respell(a, true, &mut rng));
+            targets.push(rng.pick(&pool).clone());
+            for t2 in &targets {
+                ctx.evals += 1;
+                let mut ok = into_checks!(UnixPath, UnixPathBuf, UnixPath::new(a), UnixPath::new(t2), a.clone())
+                    && into_checks!(WindowsPath, WindowsPathBuf, WindowsPath::new(a), WindowsPath::new(t2), a.clone());
+                let (mut tb1, mut tb2) = (TypedPathBuf::from_unix(t2), TypedPathBuf::from_windows(t2));
+                tb1.clone_from(&TypedPathBuf::from_unix(a));
+                tb2.clone_from(&TypedPathBuf::from_windows(a));
+                ok = ok && tb1.as_bytes() == a.as_slice() && tb1.is_unix() && tb2.as_bytes() == a.as_slice() && tb2.is_windows();
+                if let (Ok(sa), Ok(st)) = (std::str::from_utf8(a), std::str::from_utf8(t2)) {
+                    ok = ok && into_checks!(Utf8UnixPath, Utf8UnixPathBuf, Utf8UnixPath::new(sa), Utf8UnixPath::new(st), a.clone())
+                        && into_checks!(Utf8WindowsPath, Utf8WindowsPathBuf, Utf8WindowsPath::new(sa), Utf8WindowsPath::new(st), a.clone());
+                    let (mut ub1, mut ub2) = (Utf8TypedPathBuf::from_unix(st), Utf8TypedPathBuf::from_windows(st));
+                    ub1.clone_from(&Utf8TypedPathBuf::from_unix(sa));
+                    ub2.clone_from(&Utf8TypedPathBuf::from_windows(sa));
+                    ok = ok && ub1.as_str() == sa && ub1.is_unix() && ub2.as_str() == sa && ub2.is_windows();
+                }
+                if !ok {
+                    ctx.fail("clone-into-overwrites-exactly", None, format!("rel u {} {}", hex(a), hex(t2)), format!("source \"{}\" into a value holding \"{}\"", lossy(a), lossy(t2)));
+                }
+            }
+        }
+    }
     for s in &dom {
         crate::util::at(format!("comps w {}", hex(s)));
         ctx.case(s.iter().any(|b| *b >= 0x80), s);
